@@ -130,7 +130,8 @@ def pandas_dtype_check(t, out):
             res.append(truthy(t.check(pandas_engine.Engine.dtype(col.dtype), col)))
         return all(res)
     if isinstance(out, np.ndarray):
-        out = pd.Series(out)
+        # keep the array's own dtype: pd.Series would re-infer object arrays
+        out = pd.Series(out, dtype=out.dtype)
     return truthy(t.check(pandas_engine.Engine.dtype(out.dtype), out))
 
 
